@@ -75,4 +75,77 @@ Proof.
   rewrite (unit_conj T O Rth _ (cprod_unit _ Hu)), (cmul_c1_l T O Rth). exact H3.
 Qed.
 
+(* ------------------------------------------------------------------ discharging H2 and reducing H1 *)
+(* H2 from the cyclic order of the faces around v: the fan built from the list l of (representation vector of the j-th face,
+   rho of the edge leaving it towards the next face) enters every face once and leaves it once *)
+Definition cyc_fan (l : list (cx * cx)) : list (cx * cx * cx) :=
+  let fas := map fst l in
+  combine (combine fas (tl fas ++ firstn 1 fas)) (map snd l).
+
+Lemma map_fst_combine {A B} (a : list A) (b : list B) : length a = length b -> map fst (combine a b) = a.
+Proof. revert b. induction a as [|x a IH]; intros [|y b] H; cbn in *; try discriminate; [reflexivity | f_equal; apply IH; congruence]. Qed.
+Lemma map_snd_combine {A B} (a : list A) (b : list B) : length a = length b -> map snd (combine a b) = b.
+Proof. revert b. induction a as [|x a IH]; intros [|y b] H; cbn in *; try discriminate; [reflexivity | f_equal; apply IH; congruence]. Qed.
+Lemma rot1_length {A} (a : list A) : length (tl a ++ firstn 1 a) = length a.
+Proof. destruct a as [|x a]; cbn; [reflexivity | rewrite app_length; cbn; apply Nat.add_1_r]. Qed.
+
+Lemma cyc_fan_fa l : map (fun t : cx * cx * cx => fst (fst t)) (cyc_fan l) = map fst l.
+Proof.
+  unfold cyc_fan. rewrite <- (map_map fst fst).
+  rewrite map_fst_combine by (rewrite combine_length, rot1_length, Nat.min_id, !map_length; reflexivity).
+  apply map_fst_combine. rewrite rot1_length. reflexivity.
+Qed.
+Lemma cyc_fan_fb l : map (fun t : cx * cx * cx => snd (fst t)) (cyc_fan l) = tl (map fst l) ++ firstn 1 (map fst l).
+Proof.
+  unfold cyc_fan. rewrite <- (map_map fst snd).
+  rewrite map_fst_combine by (rewrite combine_length, rot1_length, Nat.min_id, !map_length; reflexivity).
+  apply map_snd_combine. rewrite rot1_length. reflexivity.
+Qed.
+Lemma cyc_fan_rho l : map (fun t : cx * cx * cx => snd t) (cyc_fan l) = map snd l.
+Proof.
+  unfold cyc_fan. apply map_snd_combine.
+  rewrite combine_length, rot1_length, Nat.min_id, !map_length. reflexivity.
+Qed.
+Lemma cyc_fan_closed l :
+  Permutation (map (fun t : cx * cx * cx => fst (fst t)) (cyc_fan l)) (map (fun t : cx * cx * cx => snd (fst t)) (cyc_fan l)).
+Proof.
+  rewrite cyc_fan_fa, cyc_fan_fb. destruct (map fst l) as [|x a]; cbn; [constructor | apply Permutation_cons_append].
+Qed.
+
+(* H1 from the roots: if the rotation r is the angle between a branch ub of the face after the edge and a branch ua of the
+   face before it, each measured against the edge (directions wa, wb of the edge in the two bases), then its order-th
+   power forgets which branches were picked:  (e^{ir})^k = fb conj(fa) (wa conj wb)^k  as soon as ua^k = fa, ub^k = fb *)
+Lemma matching_from_roots (k : nat) (r : T) (fa fb ua ub wa wb : cx) :
+  cpow O ua k = fa -> cpow O ub k = fb ->
+  cis r = cmul O (cmul O ub (cconj O wb)) (cconj O (cmul O ua (cconj O wa))) ->
+  cpow O (cis r) k = cmul O (cmul O fb (cconj O fa)) (cpow O (cmul O wa (cconj O wb)) k).
+Proof.
+  intros Ha Hb Hr. rewrite Hr, <- Ha, <- Hb.
+  rewrite !(cpow_mul T O Rth), <- !(cconj_pow T O Rth), !(cpow_mul T O Rth), <- !(cconj_pow T O Rth).
+  rewrite (cconj_mul T O Rth), (cconj_invol T O Rth). cxr.
+Qed.
+
+(* the quantum theorem with H2 discharged (cyclic fan) and H1 reduced to the root property of the picked branches *)
+Theorem quantum_partial_cyclic (order : nat) (defect : Z -> T) (E : list edge) (rot : Z -> T) (v : Z) (l : list (cx * cx)) :
+  (* the k-th signed rotation at v is the angle between branches of the two faces it separates, measured against the edge *)
+  Forall2 (fun r (t : cx * cx * cx) => let '(fa, fb, rho) := t in
+             exists ua ub wa wb, cpow O ua order = fa /\ cpow O ub order = fb /\
+               rho = cpow O (cmul O wa (cconj O wb)) order /\
+               cis r = cmul O (cmul O ub (cconj O wb)) (cconj O (cmul O ua (cconj O wa))))
+          (angle_terms O E rot v) (cyc_fan l) ->
+  (* the representation vectors around v have modulus 1 *)
+  Forall (unitc T O) (map fst l) ->
+  (* holonomy: the transports around v compose to the angle defect *)
+  cmul O (cpow O (cis (defect v)) order) (cprod (map snd l)) = c1 O ->
+  cpow O (cis (vertex_angle O defect E rot v)) order = c1 O.
+Proof.
+  intros H1 Hu H3. apply (quantum_partial order defect E rot v (cyc_fan l)).
+  - clear Hu H3. induction H1 as [|r [[fa fb] rho] rs fs Hr _ IH]; constructor; [| exact IH].
+    destruct Hr as [ua [ub [wa [wb [Ea [Eb [Er Ec]]]]]]].
+    rewrite Er. apply (matching_from_roots order r fa fb ua ub wa wb Ea Eb Ec).
+  - apply cyc_fan_closed.
+  - rewrite cyc_fan_fa. exact Hu.
+  - rewrite cyc_fan_rho. exact H3.
+Qed.
+
 End Quantum.
